@@ -53,6 +53,14 @@ NEEDS = {
     "C20/m1": ("Unused_Return gives loop-body call statements the location of the loop body", "a failing or enclosing call that is a non-first statement of a while/for body"),
     "C20/m2": ("Position::operator-(n) no longer steps back character by character", "CRLF line ends with a // or # comment earlier in the chunk: line numbers too large"),
     # ---- second round (m3, m4): written after the checks had been strengthened against the first round
+    "C01/m3": ("the __CLASS__ lookup loop runs down to idx 1 and reads m_match_stack[idx - 2]", "input that begins with a free function whose body uses __CLASS__: read below the bottom of the match stack"),
+    "C01/m4": ("Constant_Fold catches arithmetic_error only: bad_any_cast from an integer-only operator on floating literals leaves parse()", "two literal operands, one floating, operator from % << >> & | ^ (1.5 % 2)"),
+    "C02/m3": ("For_Loop accepts any arithmetic constant as the bound and converts it with get_as<int>", "for (var i = 0; i < 2.5; ++i), i < 3000000000"),
+    "C02/m4": ("Fold_Right node loses the arithmetic_error rethrow (same as C05/m2)", "x / 0 with a literal right operand: eval_error instead of arithmetic_error on the optimized path only"),
+    "C03/m3": ("Equation takes the is-a-variable flag of the left side when deciding whether to clone the right side", "m[\"k\"] = p or this.attr = p with p a parameter bound to a temporary; later in-place change of either"),
+    "C03/m4": ("contains_var_decl_in_scope no longer counts Reference nodes", "loop body / block whose only declaration is var &r = x, executed twice or beside an outer r"),
+    "C05/m3": ("Fold_Right node loses the arithmetic_error rethrow (same as C05/m2)", "x / 0, x % 0, INT_MIN / -1 with a literal right operand"),
+    "C05/m4": ("Boxed_Number::oper returns true for == when both operands are the same object", "x == x with x NaN (runtime node and function routes)"),
     "C04/m3": ("get_object: the loop checking nearer scopes for a shadowing declaration keeps only the last scope's verdict", "a variable first found >=2 scopes out, later a same-named variable (eval) in a nearer, non-adjacent scope"),
     "C04/m4": ("QuickFlatMap::find trusts a non-zero position hint without comparing the key", "set_state, then the functions are redefined in a different order: nodes evaluated before keep stale hints"),
     "C06/m3": ("Dynamic_Caster uses static_pointer_cast for const shared_ptr-held objects", "a const, shared_ptr-held Base (or sibling) passed where const Derived& is expected"),
@@ -79,14 +87,25 @@ NEEDS = {
 
 def main():
     conf = json.load(open(os.path.join(VERIF, ".build", "confirm_results.json"))) if os.path.exists(os.path.join(VERIF, ".build", "confirm_results.json")) else {}
-    verdict = {}
+    verdict = {}           # change -> {check: latest verdict}
     mr = os.path.join(VERIF, ".build", "mutant_results.txt")
     if os.path.exists(mr):
         for line in open(mr):
             parts = line.split()
-            if len(parts) >= 4 and parts[0] == "RESULT":
-                key = parts[1] + "/" + os.path.basename(parts[2])[:-5] if parts[2].endswith(".diff") and "incoming" in parts[2] else parts[1] + "/" + os.path.basename(os.path.dirname(parts[2]))
-                verdict[key] = parts[3]
+            if len(parts) >= 4 and parts[0] == "RESULT" and "/incoming/" in parts[2] and parts[2].endswith(".diff"):
+                key = os.path.basename(os.path.dirname(parts[2])) + "/" + os.path.basename(parts[2])[:-5]
+                verdict.setdefault(key, {})[parts[1]] = parts[3]
+
+    def vtext(key):
+        v = verdict.get(key)
+        if not v:
+            return "not run"
+        own = key.split("/")[0]
+        out = []
+        for chk in sorted(v, key=lambda c: (c != own, c)):
+            out.append(v[chk] if chk == own else "%s by %s" % (v[chk], chk))
+        return "; ".join(out)
+
     rows = []
     for pid in sorted(os.listdir(INC)):
         for patch in sorted(glob.glob(os.path.join(INC, pid, "m*.diff"))):
@@ -110,10 +129,10 @@ def main():
                     "confirmed": {"repo_head": c.get("head"), "existing_tests_with_change": c.get("tests"),
                                   "demonstrations": [{k: v for k, v in dd.items() if k in ("demo", "mutated_exit", "clean_exit")} for dd in c.get("demos", [])],
                                   "how": "tools/confirm_all.py: scratch worktree of /repo HEAD + git apply; cmake/ninja build; ctest -j8; demo built/run against the patched and the clean tree"},
-                    "check_verdict": {"quick_check": verdict.get(key, "not run"), "how": "tools/try_mutant.sh %s <patch>: ./check %s quick with VERIF_REPO=<patched scratch copy> (equivalent to git -C /repo apply; ./check; git checkout)" % (pid, pid)},
+                    "check_verdict": {"quick_check": vtext(key), "how": "tools/try_mutant.sh %s <patch>: ./check %s quick with VERIF_REPO=<patched scratch copy> (equivalent to git -C /repo apply; ./check; git checkout)" % (pid, pid)},
                 }
                 json.dump(meta, open(os.path.join(d, "meta.json"), "w"), indent=1)
-            rows.append((key, what, needs, c, verdict.get(key, "not run")))
+            rows.append((key, what, needs, c, vtext(key)))
     with open(os.path.join(VERIF, "seeded", "README.md"), "w") as f:
         f.write("# Independently written breaking changes\n\nGenerated by tools/seeded_table.py. `kept` = confirmed (295 tests pass with the change; demonstration fails with it and passes without it).\n\n")
         f.write("| change | what was changed | needs in order to manifest | tests with change | demo (changed/clean exit) | kept | quick check |\n|---|---|---|---|---|---|---|\n")
